@@ -9,7 +9,9 @@
 //!    threads' result bit for bit;
 //!  * count is exact, mean / variance agree with the batch computation within a first-order bound;
 //!  * each monitor snapshot equals the replay of exactly the operations committed before it;
-//!  * concurrent first calls of proportion::ci agree with a later sequential call.
+//!  * concurrent first calls of proportion::ci agree with a later sequential call;
+//!  * S6: concurrent queries of shared immutable states (threads pre-empted anywhere, also inside
+//!    a query) answer exactly what the same query answers alone.
 use stats_ci::mean::{Arithmetic, StatisticsOps};
 use stats_ci::{proportion, Confidence};
 use std::collections::VecDeque;
@@ -57,6 +59,40 @@ fn main() {
         let fresh = thread::spawn(move || format!("{:?}", x2.ci_mean(c90)));
         let (rb, rf) = (busy.join().unwrap(), fresh.join().unwrap());
         assert_eq!(rb, rf, "the same Unpaired state answers differently on a thread that was asked other questions before");
+    }
+
+    // ---------------- S6: concurrent readers. Queries take &self; several threads ask the same two
+    // shared states at two levels, in alternation, while Miri pre-empts them anywhere (also in the
+    // middle of a query). Every answer must be bit-identical to the one computed before any
+    // thread was started: an answer is a function of (state, confidence) and of nothing else.
+    {
+        let s1 = Arc::new(Arithmetic::<f64>::from_iter(&DATA[..9].to_vec()).unwrap());
+        let s2 = Arc::new(Arithmetic::<f64>::from_iter(&DATA[..16].to_vec()).unwrap());
+        let levels = [Confidence::new_two_sided(0.9), Confidence::new_upper(0.99)];
+        let mut expected = Vec::new();
+        for s in [&s1, &s2] {
+            for &l in &levels {
+                expected.push(format!("{:?}", s.ci_mean(l)));
+            }
+        }
+        let expected = Arc::new(expected);
+        let hs: Vec<_> = (0..3usize)
+            .map(|t| {
+                let (s1, s2, expected) = (s1.clone(), s2.clone(), expected.clone());
+                thread::spawn(move || {
+                    for i in 0..4usize {
+                        // thread t walks the four (state, level) combinations from its own offset
+                        let k = (t + i) % 4;
+                        let s = if k / 2 == 0 { &s1 } else { &s2 };
+                        let got = format!("{:?}", s.ci_mean(levels[k % 2]));
+                        assert_eq!(got, expected[k], "S6: a concurrent query of a shared state answered differently from the same query made alone");
+                    }
+                })
+            })
+            .collect();
+        for h in hs {
+            h.join().unwrap();
+        }
     }
 
     // ---------------- S2: channel fan-in
